@@ -233,8 +233,11 @@ func drawQuery(t *rapid.T, rec *ev.Recorder, view []refsearch.Obj, lbl string, w
 		if refsearch.Check(q) != refsearch.Valid && try < 20 {
 			continue
 		}
-		if kind == "" && len(q.Filters) > 0 {
-			kind = q.Filters[0].Key
+		if kind == "" {
+			kind = "unfiltered"
+			if len(q.Filters) > 0 {
+				kind = q.Filters[0].Key
+			}
 		}
 		return q, kind
 	}
@@ -266,7 +269,9 @@ func reference(db *meta.DB, cnr cid.ID, q refsearch.Query, attrs []string) ([]re
 	if err != nil {
 		return nil, err
 	}
-	items, next, err := db.Search(cnr, ofs, attrs, cur, 1000)
+	items, next, err := safe(func(ofs []objectcore.SearchFilter, attrs []string, cur *objectcore.SearchCursor, count uint16) ([]client.SearchResultItem, []byte, error) {
+		return db.Search(cnr, ofs, attrs, cur, count)
+	}, ofs, attrs, cur, 1000)
 	if err != nil {
 		return nil, err
 	}
@@ -341,6 +346,13 @@ func (m *mergedRun) run(t *rapid.T, rec *ev.Recorder) {
 	for qi := 0; qi < m.queries; qi++ {
 		q, kind := drawQuery(t, rec, m.view, fmt.Sprintf("q%d", qi), false)
 		f, attrs, stripped := m.search(q)
+		qe := q
+		qe.Attrs = attrs
+		if len(searchgen.C03Classes(m.view, qe)) > 0 {
+			// the effective (forced) attributes put the query into a single-shard finding class
+			rec.Excluded(1)
+			continue
+		}
 		ref, err := reference(m.union, cnr, q, attrs)
 		if err != nil {
 			if errors.Is(err, objectcore.ErrUnreachableQuery) {
